@@ -68,5 +68,18 @@ def check(prop, tier, replay=None):
                    exhaustive=(tier == 'thorough'), model_constants=MODEL_CONSTANTS,
                    explanation='TLC enumerates 10 080 shapes and the secret-slot values Inject.tla predicts for the generated file and checks SecretsPreserved / NoJobSecretInFile on the model; the real file must '
                                'carry exactly the predicted slot values (conformance) and TLC (InjectEval) evaluates the C11 formulas on the comparison of generated and original configuration')
+        # the generated file over histories of assignments, rejected updates and restarts: the replay of Sidecar.tla
+        # behaviours on the real sidecar, judged in the field "generated-config" (gen of Sidecar.tla)
+        if not replay or 'steps' in json.load(open(replay)):
+            from . import sidecar as SC
+            sub = os.path.join(scratch, 'sidecar')
+            os.makedirs(sub, exist_ok=True)
+            v2, cov2, d2, a2 = SC.collect(prop, tier, sub, replay)
+            if replay:
+                return C.conclude(prop, tier, 'model_checking', cov2, t0, v2, assumptions=a2, drift=d2)
+            violations += v2
+            cov['sidecar_histories'] = dict(evaluations=cov2['evaluations'], steps_replayed=cov2.get('steps_replayed'))
+            cov['states'] += cov2['states']
+            cov['transitions'] += cov2['transitions']
         return C.conclude(prop, tier, 'model_checking', cov, t0, violations,
                           assumptions=['YAML surface syntax beyond "loads and is field-wise equal" is not compared'], drift=drift)
